@@ -408,8 +408,8 @@ pub fn compare(
     progress: u64,
     tip_number: u64,
     tip_hash: &Byte32,
-) -> Vec<(String, String)> {
-    let mut out = Vec::new();
+) -> Vec<(String, String, u64)> {
+    let mut out: Vec<(String, String, u64)> = Vec::new();
     let name = key.short();
     // index the truth
     let mut true_cells: BTreeMap<(Vec<u8>, u32), &TrueCell> = BTreeMap::new();
@@ -428,6 +428,7 @@ pub fn compare(
             out.push((
                 "duplicate_cell".into(),
                 format!("{}: cell {:?} returned twice", name, k.1),
+                g.number,
             ));
         }
         match true_cells.get(&k) {
@@ -437,6 +438,7 @@ pub fn compare(
                     "{}: get_cells returned a cell that is not on the canonical chain (block {}, tx {}, out {})",
                     name, g.number, g.tx_index, g.out_index
                 ),
+                g.number,
             )),
             Some(t) => {
                 let js: ckb_jsonrpc_types::CellOutput = t.output.clone().into();
@@ -452,6 +454,7 @@ pub fn compare(
                             "{}: cell out {} reported at block {} tx {} but truly at block {} tx {} (or output/data differ)",
                             name, g.out_index, g.number, g.tx_index, t.number, t.tx_index
                         ),
+                        g.number,
                     ));
                 }
                 if let Some(sp) = t.spent_in {
@@ -462,6 +465,7 @@ pub fn compare(
                                 "{}: cell created in block {} (tx {}, out {}) was spent in block {} <= progress {} but is still returned",
                                 name, t.number, t.tx_index, t.out_index, sp, progress
                             ),
+                            sp,
                         ));
                     }
                 }
@@ -479,6 +483,7 @@ pub fn compare(
                         "{}: live cell created in block {} (tx {}, out {}) is not returned; progress {}",
                         name, t.number, t.tx_index, t.out_index, progress
                     ),
+                    t.number,
                 ));
             }
         }
@@ -496,6 +501,7 @@ pub fn compare(
             out.push((
                 "duplicate_tx_entry".into(),
                 format!("{}: history entry block {} tx {} returned twice", name, e.number, e.tx_index),
+                e.number,
             ));
         }
         if !true_entries.contains(&k) {
@@ -509,6 +515,7 @@ pub fn compare(
                     e.io_index,
                     if e.is_input { "input" } else { "output" }
                 ),
+                e.number,
             ));
         }
     }
@@ -533,6 +540,7 @@ pub fn compare(
                     if e.is_input { "input" } else { "output" },
                     progress
                 ),
+                e.number,
             ));
         }
     }
@@ -543,6 +551,7 @@ pub fn compare(
                 "{}: get_cells_capacity {} != sum over get_cells {}",
                 name, got.capacity, sum
             ),
+            0,
         ));
     }
     if got.cap_block_number != tip_number || got.cap_block_hash != tip_hash.as_slice() {
@@ -552,6 +561,7 @@ pub fn compare(
                 "{}: get_cells_capacity names block {} but the tip is {}",
                 name, got.cap_block_number, tip_number
             ),
+            0,
         ));
     }
     out
